@@ -60,4 +60,32 @@ PROPS = {
         "text": "Seeded sampling of request sets and schedules; not exhaustive.",
         "note": "A process crash of the frontend caused by a foreign cached response counts as a violation (crash_is_violation).",
     },
+    "C44": {
+        "world": "FE",
+        "level": "exploration",
+        "technique": "deterministic simulation: seeded PromQL programs and series sets; the real sharding middleware and analyzer in front of the "
+                     "real Prometheus PromQL engine whose Select filters series through the real storepb.ShardMatcher; shard sub-requests "
+                     "complete in scheduler-chosen order and may fail and be retried; differential against the same chain with sharding off",
+        "design_ref": "DESIGN.md §6 C44, §6b C44",
+        "quick": {"runs": 6000, "seconds": 50},
+        "thorough": {"runs": 100000, "seconds": 700},
+        "rule": "one evaluation = one series set (3-12 series of 4 metrics incl. a classic histogram, labels a,b,c,le) and 1-3 generated PromQL "
+                "programs (aggregations by/without, rate/increase, binary operators with on/ignoring/group_left, label_replace/label_join, "
+                "histogram_quantile; depth <= 3), 1-5 shards, optional split interval. Checked per program the analyzer declares shardable: merged "
+                "sharded result = unsharded result (same series, timestamps, values within 1e-9 relative); for the analyzer's sharding labels "
+                "every series is matched by exactly one shard and series agreeing on those labels share a shard. distinct = distinct event-log "
+                "hash; non-trivial = a shardable program with a non-empty unsharded result was compared.",
+        "components": {
+            "real": ["pkg/queryfrontend PromQLShardingMiddleware + querysharding.QueryAnalyzer + codec merge (through NewTripperware)",
+                     "storepb.ShardInfo / ShardMatcher", "Prometheus promql.Engine (range queries)", "retry and split middlewares"],
+            "stub": ["querier HTTP API (in-process RoundTripper around the engine, parks at the scheduler)", "storage (in-memory sorted series; "
+                     "shard filter applied per selected series as stores do)", "clock"],
+        },
+        "assumptions": ["programs come from the world's own generator (promqlsmith not used); native histograms, subqueries and @ modifiers are not generated",
+                        "programs whose unsharded evaluation fails are skipped; a shard sub-request hit by an injected fault may fail the request",
+                        "each distinct downstream sub-request fails at most once per run"],
+        "text": "Seeded sampling of programs, series sets, shard counts and schedules; not exhaustive.",
+        "note": "The schedule dimension is small; this is mostly program generation.",
+    },
 }
+
